@@ -63,5 +63,11 @@ CHECKS = {
                      "answered once, live members of the right kind carried the ETag and body a simultaneous GET returned, deleted / never-existing / wrong-kind / malformed / "
                      "out-of-namespace hrefs never carried data, and each href alone got the same answer as inside its list.",
                 note="Trusted: harness multistatus parser; href classes = equality after percent-decoding, removal of scheme/authority and dot-segment normalisation; data compared modulo XML line-end normalisation."),
+    "C18": dict(level="exploration", design="DESIGN.md section 4 C18",
+                technique="runtime monitoring: discovery walker (follows only server-returned hrefs) over enumerated deployment configurations with real server processes, restarts and a before/after snapshot comparator",
+                text="Held on all 216 enumerated deployments (thorough; a covering sample of 24 in the quick tier): from the prefix and from both .well-known redirects the walker reached "
+                     "the principal, both home sets and (with defaults or a pre-existing tree) a calendar and an address book of the right types, reached collections the user created "
+                     "earlier, and after every restart all collections, member bodies and properties were unchanged.",
+                note="Trusted: harness href resolution (urljoin); vf/wsgihost.py as a model of a prefix-mounting WSGI deployment with WellknownRedirector."),
 }
 NOT_APPLICABLE = {}
